@@ -18,9 +18,9 @@ namespace
 using dbgroup::random::ApproxZipfDistribution;
 using dbgroup::random::ZipfDistribution;
 
-enum Probe : int { pSamples = 0, pSharedReads, pExact, pApprox, pThrowChecked, pLargeN, pProbes };
+enum Probe : int { pSamples = 0, pSharedReads, pExact, pApprox, pThrowChecked, pLargeN, pCopies, pProbes };
 const char *const kProbeNames[] = {"concurrent_samples_compared", "runs_with_interleaved_shared_reads", "exact_generator_runs", "approx_generator_runs",
-                                   "invalid_range_rejected", "runs_with_more_than_100_bins", nullptr};
+                                   "invalid_range_rejected", "runs_with_more_than_100_bins", "independent_copies_compared", nullptr};
 
 std::string g_prop;
 bool tagged(const char *tags) { return g_prop.empty() || strstr(tags, g_prop.c_str()) != nullptr; }
@@ -123,12 +123,40 @@ struct Run {
       Gen copy{*g};
       Gen tmp{*g};
       Gen moved{std::move(tmp)};
+      // copies are independent objects: one whose source has been destroyed, one copy-assigned over a generator with other
+      // parameters, one whose source was re-parameterised afterwards (same number of bins, so an in-place assignment)
+      Gen *src = new Gen{mn, mx, alpha};
+      Gen detached{*src};
+      Gen assigned{mn, mn, alpha + 0.75};
+      assigned = *src;
+      delete src;
+      Gen src2{*g};
+      Gen survivor{src2};
+      src2 = Gen{mn, mx, alpha + 1.5};
+      std::vector<bool> copies_done(K, false);
+      auto copies_checked_for = [&](size_t t) {
+        const bool was = copies_done[t];
+        copies_done[t] = true;
+        return was;
+      };
       for (size_t t = 0; t < K; ++t) {
         const Op &o = p.threads[t][0];
         std::mt19937_64 e1{static_cast<uint64_t>(o.a)}, e2{static_cast<uint64_t>(o.a)}, e3{static_cast<uint64_t>(o.a)}, e4{static_cast<uint64_t>(o.a)};
         for (size_t i = 0; i < solo[t].size(); ++i) {
           const Int v = (*g)(e1);
           const Int v2 = same(e2), v3 = copy(e3), v4 = moved(e4);
+          if (!copies_checked_for(t)) {
+            std::mt19937_64 e5{static_cast<uint64_t>(o.a)}, e6{static_cast<uint64_t>(o.a)}, e7{static_cast<uint64_t>(o.a)};
+            for (size_t j = 0; j < solo[t].size(); ++j) {
+              const Int d = detached(e5), a2 = assigned(e6), sv = survivor(e7);
+              if (d != solo[t][j] || a2 != solo[t][j] || sv != solo[t][j]) {
+                ORACLE("[C19]", "copy-depends-on-its-source", " :: sample %zu of engine seed %ld: expected %lld; copy whose source was destroyed %lld, copy-assigned generator %lld, copy whose source was re-parameterised %lld",
+                       j, static_cast<long>(o.a), static_cast<long long>(solo[t][j]), static_cast<long long>(d), static_cast<long long>(a2), static_cast<long long>(sv));
+                break;
+              }
+            }
+            dsim::probe(pCopies);
+          }
           if (v2 != v || v3 != v || v4 != v || v != solo[t][i]) {
             ORACLE("[C19]", "equal-generators-differ", " :: sample %zu of engine seed %ld: original %lld (alone, cold process: %lld), equal parameters %lld, copy %lld, moved %lld",
                    i, static_cast<long>(o.a), static_cast<long long>(v), static_cast<long long>(solo[t][i]), static_cast<long long>(v2),
